@@ -1,6 +1,6 @@
 (* Props/C17.v — C17: whitespace, entity and attribute normalisation preserves meaning.
    Statements only; each is closed by [exact] of a lemma proved in Normalise/*Proofs.v. *)
-From Verif Require Import Common.Base Normalise.Model Normalise.Spec Normalise.WsProofs Normalise.EscProofs Normalise.EntProofs Normalise.AttrProofs Normalise.Compose.
+From Verif Require Import Common.Base Normalise.Model Normalise.Spec Normalise.WsProofs Normalise.EscProofs Normalise.EntProofs Normalise.AttrProofs Normalise.Compose Normalise.Partial.
 
 (* ReplaceMultipleWhitespace (the in-place j/k compaction with its three exit cases) neither panics nor
    runs out of fuel and returns the unique o with [Collapse false b o]: b cut into maximal runs of
@@ -35,6 +35,33 @@ Theorem entities_preserve_decoding_refuted :
     replace_entities em rm b = Ok o /\ html_decode o <> html_decode b.
 Proof. exact entities_preserve_decoding_refuted_proof. Qed.
 Print Assumptions entities_preserve_decoding_refuted.
+
+(* What does hold of idempotence: on every [clean] input (text without '&' interleaved with any number of
+   terminated decimal / hexadecimal references, leading zeros allowed, to ASCII bytes other than NUL and
+   '&'; any name map, no reverse map) ReplaceEntities returns the decoded text and a second pass changes
+   nothing.  Missing: all other shapes; in general the clause is false (entities_idempotent_refuted). *)
+Theorem entities_idempotent_partial :
+  forall em b o, clean b o ->
+    replace_entities em [] b = Ok o /\ replace_entities em [] o = Ok o.
+Proof. exact entities_idempotent_partial_proof. Qed.
+Print Assumptions entities_idempotent_partial.
+
+(* What does hold of "decoded text unchanged": on every [clean] input the output IS the decoding of the
+   input (and, containing no '&', decodes to itself).  Missing: all other shapes; in general the clause
+   is false (entities_preserve_decoding_refuted, entities_hex_overflow_refuted). *)
+Theorem entities_preserve_decoding_partial :
+  forall em b o, clean b o ->
+    replace_entities em [] b = Ok o /\ html_decode b = o /\ html_decode o = o.
+Proof. exact entities_preserve_decoding_partial_proof. Qed.
+Print Assumptions entities_preserve_decoding_partial.
+
+(* A second way the decoding clause fails, not in the property text: hexadecimal references are accumulated
+   in a Go int that wraps around, so `&#x10000000000000041;` (above U+10FFFF, U+FFFD in HTML, literal text
+   for html_decode) is replaced by `A`. *)
+Theorem entities_hex_overflow_refuted :
+  exists b, replace_entities [] [] b = Ok [65] /\ html_decode b = b.
+Proof. exact entities_hex_overflow_refuted_proof. Qed.
+Print Assumptions entities_hex_overflow_refuted.
 
 (* ReplaceMultipleWhitespaceAndEntities (one loop doing both, entities replaced before later runs are
    compacted) neither panics nor runs out of fuel and returns exactly what ReplaceEntities returns on the
